@@ -13,8 +13,8 @@ Proof. exact compile_program_total. Qed.
 Print Assumptions C01_compile_program_total.
 
 (* MAIN THEOREM.  For every program P (any number of predicates, arities, clauses; heads with repeated,
-   nested and anonymous variables; bodies over calls, =, \=, true, fail and all control constructs) without
-   a cut inside a condition or under \+ (good_program; the recorded finding KF-C06-1), for every call depth n,
+   nested and anonymous variables; bodies over calls, =, \=, true, fail and all control constructs; good_program only
+   says that the bodies contain no internal $CUTIF marker, which source text cannot produce), for every call depth n,
    every predicate name, every argument list and every state (store of active bindings + next fresh cell):
    running the emitted code of the compiled program (Machine.query: the model of the generated Python -
    nested for-loops over unify()/query(), the doBreak / cutIfN flag protocol, return for cut, variable()
@@ -32,7 +32,7 @@ Print Assumptions C01_compiled_program_computes_reference.
 (* END-TO-END.  SldR.solveR is SLD resolution in its plainest form: every clause is renamed apart (all its
    variables get fresh cells), the head is unified with the goal by the engine's unification (a most general
    unifier: C02), clauses in source order, bodies depth-first and left to right under the textbook control
-   semantics, cut local to the predicate.  For every program (without the recorded opaque-cut finding),
+   semantics, cut local to the predicate.  For every program,
    every depth, predicate, argument list and well-formed state: the compiled program's answer sequence and
    solveR's have the same length and end the same way, and the k-th answers agree on every cell that
    existed before the query up to an injective renaming p' of the cells created during the query, p' being
@@ -61,7 +61,7 @@ Theorem C01_body_code_correct : forall (S : Type) (I : str -> list sterm -> S ->
   (J : expr -> S -> list S * bool) (assign : str -> expr -> S -> S),
   (forall f args s, J (query_expr f args) s = I f args s) ->
   forall n b cnt code cnt',
-  comp n b cnt = Some (code, cnt') -> nomark b = true -> noc b = true ->
+  comp n b cnt = Some (code, cnt') -> nomark b = true ->
   forall s, (let '(ys, k) := run_function J assign code s in (ys, fin_of_compl k)) = sem I b s.
 Proof. exact control_correct_function. Qed.
 Print Assumptions C01_body_code_correct.
